@@ -629,3 +629,65 @@ Definition run_parse_guard (p : parse_input) (h : sophdr) (ss : list gspec)
   | Err k => VErr k
   | Ok _ => run_object h ss true ls
   end.
+
+(* ---- an instance whose Annotation Group Sequence is not the constructor's -------------------
+   The constructor makes item i carry number i+1, but from_dataset / annread check nothing
+   about Annotation Group Numbers, and the items of a written instance can be removed,
+   stored in another order, renumbered or stored twice before it is parsed (or the
+   sequence of the object in memory can be rearranged).  [edit_items os ed] is the item
+   sequence that is then looked at: for each (p, r) of [ed] the item at position p
+   (0-based) of the built sequence, carrying number r when r is given; positions outside
+   the sequence contribute nothing.  get_annotation_group(number=k) SEARCHES the items for
+   the number carried ([get_group], [get_group_obj] above: a filter, never an index), so
+   the same functions describe the lookups on the rearranged sequence. *)
+Definition renumber_info (k : Z) (g : ginfo) : ginfo :=
+  mkG k (g_uid g) (g_label g) (g_cat g) (g_typ g) (g_gt g) (g_algtype g) (g_alg g).
+
+Definition renumber (k : Z) (o : gobj) : gobj :=
+  mkGO (renumber_info k (o_info o)) (o_enc o) (o_ms o) (o_cache o).
+
+Definition edit_pick {A} (ren : Z -> A -> A) (l : list A) (e : Z * option Z) : list A :=
+  if fst e <? 0 then []
+  else match nth_error l (Z.to_nat (fst e)) with
+       | Some x => [match snd e with Some k => ren k x | None => x end]
+       | None => []
+       end.
+
+Definition edit_infos (gs : list ginfo) (ed : list (Z * option Z)) : list ginfo :=
+  flat_map (edit_pick renumber_info gs) ed.
+
+Definition edit_items (os : list gobj) (ed : list (Z * option Z)) : list gobj :=
+  flat_map (edit_pick renumber os) ed.
+
+(* identification only: the groups are built by the constructor (numbered 1, 2, ..), the
+   item sequence is rearranged, then looked up; a group found is reported as (number, uid) *)
+Definition run_lookup_edited (gs : list ginfo) (ed : list (Z * option Z)) (ls : list lookup) : val :=
+  if negb (sop_accepts gs) then VErr VE
+  else
+    let gs' := edit_infos gs ed in
+    let show := fun g => VL [VZ (g_number g); VZ (g_uid g)] in
+    VL (map (fun l => match l with
+                      | ByNumber k => vres show (get_group gs' (Some k) None)
+                      | ByUid u => vres show (get_group gs' None (Some u))
+                      | ByNothing => vres show (get_group gs' None None)
+                      | ByQuery q => VL (map show (get_groups gs' q))
+                      end) ls).
+
+(* the whole object: build, optionally parse, rearrange the item sequence, look groups up
+   and read coordinates / measurements on the object found *)
+Definition run_object_edited (h : sophdr) (ss : list gspec) (parsed : bool) (ed : list (Z * option Z))
+           (ls : list (olookup * list hop * list (option Z))) : val :=
+  match build_full h ss with
+  | Err k => VErr k
+  | Ok os =>
+      let os' := edit_items (if parsed then map parse_obj os else os) ed in
+      VL (map (fun l =>
+                 match l with
+                 | (LNumber k, ops, names) =>
+                     vres (fun o => observe o ops names) (get_group_obj os' (Some k) None)
+                 | (LUid u, ops, names) =>
+                     vres (fun o => observe o ops names) (get_group_obj os' None (Some u))
+                 | (LQuery q, ops, names) =>
+                     VL (map (fun o => observe o ops names) (get_groups_obj os' q))
+                 end) ls)
+  end.
